@@ -8,7 +8,7 @@ import sys
 from vf import runner
 
 
-def run_atheris(ctx, runs=400000, shards=8):
+def run_atheris(ctx, runs=2400000, shards=12):
     deps = os.path.join(runner.VERIF_DIR, '.deps')
     try:
         sys.path.insert(0, deps)
